@@ -62,6 +62,9 @@ def cases(tier, seed):
             sp2["irr"]["kw"].pop("MaxIrrSeason", None)
             sp2["irr"]["kw"].pop("MaxIrr", None)
             sp = sp2
+        if i % 6 == 3:
+            # "constant at the level of the first simulated year": nothing later may enter that level
+            sp["co2"] = {"constant_auto": True}
         if i % 4 == 1:
             # one day of extreme evaporative demand in the first season: anything derived from
             # statistics of the whole record (which the end date and later weather change) shows
@@ -217,6 +220,16 @@ def run_case(case):
     # ---- (4) extension of the end date -------------------------------------------------------
     if len(B.summary) and spec["weather"]["kind"] == "synth":
         ext = int(rng.choice([1, 2, 30, 200, 365, 800, 1095]))
+        if rng.random() < 0.4:
+            # the new end date falls on / next to a planting date
+            e0 = S.d(spec["end"])
+            pm, pd_ = [int(x) for x in spec["crop"]["planting"].split("/")]
+            nxt = dt.date(e0.year, pm, pd_)
+            while nxt <= e0 + dt.timedelta(days=1):
+                nxt = dt.date(nxt.year + 1, pm, pd_)
+            nxt = dt.date(nxt.year + int(rng.integers(0, 2)), pm, pd_)
+            ext = (nxt - e0).days + int(rng.choice([-1, 0, 0, 1]))
+            cov["extensions_to_a_planting_date"] += 1
         sp4 = copy.deepcopy(spec)
         sp4["end"] = gen.fmt(S.d(spec["end"]) + dt.timedelta(days=ext))
         P = sim.run(sp4, opts=dict(ledger=False, irr=False))
